@@ -17,6 +17,12 @@
 // both answers plus the mapped request.  The Lean driver recomputes the mapping and the batch semantics
 // with Model.Authzen and decides.
 //
+// A case whose kind is preceded by the token `pin` runs against a store with TWO authorization models: the
+// case's model (written first) and a later model with the same types and relations in which nothing is
+// assignable to a `user` (every decision false, every search empty).  The AuthZEN request carries the id of the
+// OLDER model in the Openfga-Authorization-Model-Id header (gRPC metadata), the native requests carry it in
+// their authorization_model_id field: every endpoint must answer from the pinned model, not from the latest.
+//
 // Native Check answers can race (known findings F2/F9/F10 of C02): when the AuthZEN side and the native
 // side disagree the executor repeats both (up to 6 times) and reports `flaky` if they ever agree.
 package main
@@ -333,7 +339,35 @@ func errCode(err error) (code int, http int) {
 	return int(c), servererrors.NewEncodedError(int32(c), st.Message()).HTTPStatus()
 }
 
-func setup(m *fga.Model, tuples []fga.Tuple) (storeID, modelID string, err error) {
+// denyAll: same types and relations as m, but every relation is directly assignable to the type `nobody` only.
+func denyAll(m *fga.Model) *fga.Model {
+	out := &fga.Model{Types: []*fga.TypeDef{{Name: "user"}, {Name: "nobody"}}}
+	for _, t := range m.Types {
+		if t.Name == "user" {
+			continue
+		}
+		td := &fga.TypeDef{Name: t.Name}
+		for _, rd := range t.Rels {
+			td.Rels = append(td.Rels, &fga.RelDef{Name: rd.Name, Rewrite: &fga.Rewrite{Kind: "this"}, Restrs: []fga.Restr{{Typ: "nobody"}}})
+		}
+		out.Types = append(out.Types, td)
+	}
+	return out
+}
+
+// pinnedModel is the model id every request of the running case names ("" = none: the latest model).
+var pinnedModel string
+
+// azCtx is the context of an AuthZEN call: the pinned model id travels in the gRPC metadata, as the HTTP
+// gateway delivers the Openfga-Authorization-Model-Id header.
+func azCtx() context.Context {
+	if pinnedModel == "" {
+		return context.Background()
+	}
+	return metadata.NewIncomingContext(context.Background(), metadata.Pairs("openfga-authorization-model-id", pinnedModel))
+}
+
+func setup(m *fga.Model, tuples []fga.Tuple, twoModels bool) (storeID, modelID string, err error) {
 	s := getServer()
 	ctx := context.Background()
 	cs, err := s.CreateStore(ctx, &openfgav1.CreateStoreRequest{Name: "c32-store"})
@@ -351,11 +385,18 @@ func setup(m *fga.Model, tuples []fga.Tuple) (storeID, modelID string, err error
 			return "", "", err
 		}
 	}
+	if twoModels {
+		am2 := denyAll(m).Proto("")
+		if _, err := s.WriteAuthorizationModel(ctx, &openfgav1.WriteAuthorizationModelRequest{
+			StoreId: cs.GetId(), TypeDefinitions: am2.GetTypeDefinitions(), SchemaVersion: am2.GetSchemaVersion(), Conditions: am2.GetConditions()}); err != nil {
+			return "", "", err
+		}
+	}
 	return cs.GetId(), wr.GetAuthorizationModelId(), nil
 }
 
 func nativeCheck(storeID string, m mapped) string {
-	resp, err := getServer().Check(context.Background(), &openfgav1.CheckRequest{StoreId: storeID,
+	resp, err := getServer().Check(context.Background(), &openfgav1.CheckRequest{StoreId: storeID, AuthorizationModelId: pinnedModel,
 		TupleKey: &openfgav1.CheckRequestTupleKey{User: m.user, Relation: m.rel, Object: m.obj}, Context: ctxPB(m.ctx)})
 	if err != nil {
 		c, h := errCode(err)
@@ -418,7 +459,7 @@ type attempt struct {
 
 func runEval(storeID string, t *fga.Toks) attempt {
 	it := decItem(t)
-	ctx := context.Background()
+	ctx := azCtx()
 	resp, err := getServer().Evaluation(ctx, &authzenv1.EvaluationRequest{StoreId: storeID, Subject: it.s.subject(),
 		Resource: it.r.resource(), Action: it.a.pb(), Context: it.c.pb()})
 	az := ""
@@ -461,7 +502,7 @@ func runEvals(storeID string, t *fga.Toks) attempt {
 		sem, _ = strconv.Atoi(semTok)
 		req.Options = &authzenv1.EvaluationsOptions{EvaluationsSemantic: authzenv1.EvaluationsSemantic(sem)}
 	}
-	ctx := context.Background()
+	ctx := azCtx()
 	resp, err := getServer().Evaluations(ctx, req)
 	var azItems []string
 	az := ""
@@ -507,7 +548,7 @@ func runEvals(storeID string, t *fga.Toks) attempt {
 }
 
 func nativeBatch(storeID string, maps []mapped) string {
-	breq := &openfgav1.BatchCheckRequest{StoreId: storeID}
+	breq := &openfgav1.BatchCheckRequest{StoreId: storeID, AuthorizationModelId: pinnedModel}
 	for i, m := range maps {
 		breq.Checks = append(breq.Checks, &openfgav1.BatchCheckItem{
 			TupleKey: &openfgav1.CheckRequestTupleKey{User: m.user, Relation: m.rel, Object: m.obj},
@@ -549,7 +590,7 @@ func runSubjectSearch(storeID string, t *fga.Toks) attempt {
 	r := decEntity(t)
 	a := decAction(t)
 	c := decProps(t)
-	ctx := context.Background()
+	ctx := azCtx()
 	resp, err := getServer().SubjectSearch(ctx, &authzenv1.SubjectSearchRequest{StoreId: storeID,
 		Subject: &authzenv1.SubjectFilter{Type: styp, Properties: sprops.pb()}, Resource: r.resource(), Action: a.pb(), Context: c.pb()})
 	az := ""
@@ -565,7 +606,7 @@ func runSubjectSearch(storeID string, t *fga.Toks) attempt {
 		az = list(xs)
 	}
 	merged := mergeCtx(c, sprops, r.props, a.props)
-	nresp, err := getServer().ListUsers(ctx, &openfgav1.ListUsersRequest{StoreId: storeID,
+	nresp, err := getServer().ListUsers(ctx, &openfgav1.ListUsersRequest{StoreId: storeID, AuthorizationModelId: pinnedModel,
 		Object: &openfgav1.Object{Type: r.typ, Id: r.id}, Relation: a.name, Context: ctxPB(merged),
 		UserFilters: []*openfgav1.UserTypeFilter{{Type: styp}}})
 	nat := ""
@@ -603,7 +644,7 @@ func runResourceSearch(storeID string, t *fga.Toks) attempt {
 	rtyp := unesc(t.Next())
 	rprops := decProps(t)
 	c := decProps(t)
-	ctx := context.Background()
+	ctx := azCtx()
 	resp, err := getServer().ResourceSearch(ctx, &authzenv1.ResourceSearchRequest{StoreId: storeID, Subject: s.subject(), Action: a.pb(),
 		Resource: &authzenv1.ResourceFilter{Type: rtyp, Properties: rprops.pb()}, Context: c.pb()})
 	az := ""
@@ -621,7 +662,7 @@ func runResourceSearch(storeID string, t *fga.Toks) attempt {
 	merged := mergeCtx(c, s.props, rprops, a.props)
 	user := s.typ + ":" + s.id
 	col := &collector{ctx: ctx}
-	err = getServer().StreamedListObjects(&openfgav1.StreamedListObjectsRequest{StoreId: storeID, User: user, Relation: a.name, Type: rtyp,
+	err = getServer().StreamedListObjects(&openfgav1.StreamedListObjectsRequest{StoreId: storeID, AuthorizationModelId: pinnedModel, User: user, Relation: a.name, Type: rtyp,
 		Context: ctxPB(merged)}, col)
 	nat := ""
 	if err != nil {
@@ -635,7 +676,7 @@ func runResourceSearch(storeID string, t *fga.Toks) attempt {
 		sort.Strings(xs)
 		nat = list(xs)
 	}
-	lresp, err := getServer().ListObjects(ctx, &openfgav1.ListObjectsRequest{StoreId: storeID, User: user, Relation: a.name, Type: rtyp,
+	lresp, err := getServer().ListObjects(ctx, &openfgav1.ListObjectsRequest{StoreId: storeID, AuthorizationModelId: pinnedModel, User: user, Relation: a.name, Type: rtyp,
 		Context: ctxPB(merged)})
 	lo := ""
 	if err != nil {
@@ -657,7 +698,7 @@ func runActionSearch(storeID string, m *fga.Model, t *fga.Toks) attempt {
 	s := decEntity(t)
 	r := decEntity(t)
 	c := decProps(t)
-	ctx := context.Background()
+	ctx := azCtx()
 	resp, err := getServer().ActionSearch(ctx, &authzenv1.ActionSearchRequest{StoreId: storeID, Subject: s.subject(), Resource: r.resource(), Context: c.pb()})
 	az := ""
 	if err != nil {
@@ -707,11 +748,20 @@ func exec(line string, st *hx.Stats) string {
 	t.Expect("az")
 	m := fga.DecodeModel(t)
 	tuples := fga.DecodeTuples(t, "tuples")
-	storeID, _, err := setup(m, tuples)
+	kind := t.Next()
+	pin := kind == "pin"
+	if pin {
+		kind = t.Next()
+	}
+	storeID, modelID, err := setup(m, tuples, pin)
 	if err != nil {
 		return "setup-error " + strings.ReplaceAll(err.Error(), "\t", " ")
 	}
-	kind := t.Next()
+	pinnedModel = ""
+	if pin {
+		pinnedModel = modelID
+		st.Inc("pinned-to-older-model")
+	}
 	pos := t.I
 	var first attempt
 	for try := 0; try < 6; try++ {
@@ -882,6 +932,11 @@ func gen(r *hx.Rand, n int, tier string, emit func(string), st *hx.Stats) {
 		}
 		tuples := fga.GenTuples(c, m, 3+c.Intn(14))
 		head := "az " + m.Encode() + " " + fga.EncodeTuples("tuples", tuples)
+		if c.Chance(1, 3) {
+			// two models in the store, every request of this case pinned to the older one
+			head += " pin"
+			st.Inc("stores-with-two-models")
+		}
 		genReq := func() fga.Req {
 			rq := fga.GenReq(c, m, tuples)
 			if len(tuples) > 0 && c.Chance(1, 3) {
